@@ -269,6 +269,9 @@ def acc_goals(ctx, regs, pos0):
 def finish_unit(ctx, outcome, spec_goal_pairs, site, regs=None, pos0=None, allowed_raises=()):
     for name, spec, goal in spec_goal_pairs:
         check_against_spec(ctx, name, spec, goal, site=site)
+    from contracts.walker_stubs import relay_finish
+
+    relay_finish(ctx, site)
     mode = ctx.ghost.get("mode")
     regs0 = ctx.ghost.get("regs0")
     L = ctx.ghost.get("L")
